@@ -26,7 +26,8 @@ META = {
     "text": "Sizes {0,1,7,8,9,24,809} (MAX_REQUEST_SIZE=8; 809 = 102 chunks crosses the 100-outstanding-writes "
             "branch; thorough adds 16,17,25,1609 and every position of the 809-byte file) x operation {put, putfo, "
             "get, getfo, pipelined open/write/close} x confirm/callback/prefetch/max_concurrent options x delivery "
-            "timing {lazy, eager}; faults: none, k-th write rejected for every k with every SFTP error code 1..8, "
+            "timing {lazy, eager}; putfo additionally x source granularity (file-like source whose read() returns "
+            "at most 5 or 1 bytes per call, no fault / k-th write rejected / stat failing); faults: none, k-th write rejected for every k with every SFTP error code 1..8, "
             "k-th read failed with every error code 2..8 (inner positions of the 102/202-chunk files: 3 (quick) / "
             "5 (thorough) write and 2/4 read statuses), k-th and all later reads failing with each code "
             "(persistent failure, prefetching transfers), k-th read cut to 3 or 1 bytes or answered "
@@ -82,6 +83,24 @@ class EagerChan(SP.Chan):
         return n
 
 
+class ShortBlockSource:
+    """File-like source for putfo whose read(n) hands out at most `piece` bytes per call although more follow
+    (pipes, sockets, decompressors, raw streams do this); b"" only at the end of the data."""
+
+    def __init__(self, data, piece):
+        self.data, self.piece, self.pos, self.calls = data, piece, 0, 0
+
+    def read(self, n=-1):
+        self.calls += 1
+        k = self.piece if n is None or n < 0 else min(n, self.piece)
+        out = self.data[self.pos:self.pos + k]
+        self.pos += len(out)
+        return out
+
+
+SRC_PIECES = (5, 1)         # source granularities besides "whole file in one read" (io.BytesIO)
+
+
 class Recorder:
     def __init__(self):
         self.calls = []
@@ -133,6 +152,18 @@ def cases(tier):
                         for fl in wfaults + ([("stat", 1, SFTP_FAILURE)] if confirm else []):
                             out.append({"op": op, "size": size, "confirm": confirm, "cb": cb, "eager": eager,
                                         "fault": fl})
+                        if op != "putfo" or size == 0:
+                            continue
+                        # source granularity: putfo from a file-like object whose read() returns short,
+                        # non-empty blocks (the k-th write rejected with one representative status)
+                        for piece in SRC_PIECES:
+                            if big and (piece == 1 or size > 809):
+                                continue
+                            for fl in wfaults + ([("stat", 1, SFTP_FAILURE)] if confirm else []):
+                                if fl is not None and fl[0] == "write" and fl[2] != SFTP_FAILURE:
+                                    continue
+                                out.append({"op": op, "size": size, "confirm": confirm, "cb": cb, "eager": eager,
+                                            "fault": fl, "piece": piece})
         for wsize in (3, 8, 20):
             for bufsize in (-1, 16):
                 for eager in (False, True):
@@ -236,7 +267,8 @@ def run_case(case):
             o.in_call = True
             try:
                 if case["op"] == "putfo":
-                    a = c.putfo(io.BytesIO(src), NAME, len(src), o.rec, case["confirm"])
+                    fobj = ShortBlockSource(src, case["piece"]) if case.get("piece") else io.BytesIO(src)
+                    a = c.putfo(fobj, NAME, len(src), o.rec, case["confirm"])
                     o.returned = a.st_size
                 elif case["op"] == "put":
                     a = c.put(lpath, NAME, o.rec, case["confirm"])
@@ -325,6 +357,8 @@ def judge(case, o, src):
         extra = ""
         if fam == "put" and cls == "dest-size-differs":
             extra = ":confirm" if case["confirm"] else ":no-confirm"
+        if case.get("piece"):
+            extra += ":source-read-returns-short-blocks"
         if fam == "get":
             extra = ":prefetch" if case["prefetch"] else ":no-prefetch"
         return ("inexact-without-error:%s:%s:%s%s" % (fam, fkind, cls, extra),
@@ -349,8 +383,11 @@ def run_cases(item, acc):
         o, src = run_case(case)
         acc.ev()
         acc.count("executions")
-        if o.fired:
+        if o.fired or case.get("piece"):
             acc.nt(repr(sorted(case.items(), key=lambda kv: kv[0])))
+        if case.get("piece"):
+            acc.count("putfo_from_short_block_source")
+        if o.fired:
             acc.count("fault_fired")
             acc.count("raised_after_fault" if o.raised is not None else "completed_despite_fault")
         v = judge(case, o, src)
@@ -369,10 +406,12 @@ def main(tier):
     SP.scale(CHUNK)
     ck = core.Check(
         PID, tier, "fault_enumeration",
-        "case = operation x size x options x delivery timing x one fault (kind, position k, status); every k up to "
+        "case = operation x size x options x delivery timing x one fault (kind, position k, status) [x putfo source "
+        "granularity: whole file per read() / short non-empty blocks of <=5 or <=1 bytes]; every k up to "
         "the number of chunks (+1 for the EOF probe on reads; the 809/1609-byte files in quick use k in "
         "{1,50,100,101,102,last}); nontrivial = distinct case in which the injected fault actually fired "
-        "(write rejected / read failed / read shortened / response type swapped / stat failed); status dimension = "
+        "(write rejected / read failed / read shortened / response type swapped / stat failed) or the putfo source "
+        "delivered the file in short blocks; status dimension = "
         "every SFTP error code (writes 1..8, reads 2..8) at every position of the small files and at the first and "
         "last position of the big ones, representative codes at their inner positions; persistent read failure "
         "(k-th read and all later ones) with the same code sets for prefetching get/getfo",
